@@ -643,7 +643,9 @@ BOUNDS = dict(
           'with duration, bolus, dose without time, duration without dose, '
           'measurement} for the first individual, block / interleaved / '
           'reversed row order, string and integer IDs, with and without a '
-          'duration column',
+          'duration column, the regimen inside every likelihood the '
+          'controller hands out; a regimen set through 5 kinds of '
+          'predictive-model wrappers (2-3 averaged models)',
     thorough='generated models with up to 4 states in every declaration '
              'order; every triple of dataset row kinds',
     outside='the integrator: "receives drug at rate dose/duration" is decided '
